@@ -7,10 +7,13 @@
    mutation under test), the node under test and the prediction `exp`.
 
    C13  at every mapping node:
-          InsertKey  a foreign key first / in the middle / last          (closed key sets only)
+          InsertKey  a foreign key first / in the middle / last          (closed key sets only); the foreign key is
+                     an ordinary word or the unquoted YAML merge key `<<` (tag !!merge, still a key here)
           DupKey     a copy of entry i (key in the same / UPPER / Mixed case, value copied) directly
                      after entry i or at the end of the mapping
-          DropKey    removal of a key without which no mandatory alternative is satisfied
+          DropKey    removal of a key without which no mandatory alternative is satisfied; also together with
+                     a foreign key, and of every PAIR of mandatory keys of one alternative at once (each of
+                     the two must still be reported: exp.named)
         each with and without *sensors*: a malformed placeholder in the first template scalar of
         every entry of the mapping, so that the siblings HAVE diagnostics that must survive.
         Prediction: a syntax-check diagnostic at exp.at ("key": the new key; "item": the start of the
@@ -22,6 +25,9 @@
           min  every optional sibling of every mapping on the path removed
           rev  the entries of the nearest enclosing mapping in reverse order
           revall  every mapping on the path in reverse order (thorough tier)
+          exprbefore  every scalar sibling BEFORE the scalar (elements of the same sequence, values of the same
+               open / raw mapping) replaced by a well-formed expression of type `any` - the sibling
+               configuration in which a type-merging loop could stop early
         Prediction: at least one diagnostic located on that scalar; of class expr-syntax unless the
         domain is one of Schema!NonTemplate or the placeholder is the unterminated one ("${{ 1 +" is literal
         text for GitHub: only the first half of the property applies).  Domains of Schema!WholeScalar only
@@ -32,7 +38,7 @@ CONSTANTS Props,       \* subset of {"C13", "C03"}
           BaseSet,     \* base indices to walk
           Variants,    \* placeholder variants, subset of 1..5
           Styles,      \* quoting of the placeholder: subset of {"auto", "single", "double"}
-          Configs,     \* subset of {"max", "min", "rev", "revall"}
+          Configs,     \* subset of {"max", "min", "rev", "revall", "exprbefore"}
           Cases,       \* subset of {"same", "upper", "mixed"}
           SensorModes  \* subset of BOOLEAN
 
@@ -40,6 +46,8 @@ Placeholder == << "${{ a.. }}", "${{ }}", "${{ 'x }}", "x ${{ ! }} y", "${{ 1 +"
 WholeVariants == {1, 2, 3}
 Unterminated == {5}      \* no closing }}: literal text for GitHub, so only "a diagnostic at the scalar" is demanded
 ForeignKey == "verif-foreign-key"
+ForeignKeys == {ForeignKey, "<<"}      \* "<<" written plain is the YAML merge key (tag !!merge)
+AnyExpr == "${{ fromJSON('\"x\"') }}"      \* well-formed, statically of type any
 SensorText == "${{ a.. }}"
 
 \* raw matrix mappings are case-insensitive open mappings
@@ -81,8 +89,31 @@ RevAll(d, done, rest) ==
   (IF d.k = "m" /\ Len(d.p) >= 2 THEN <<[op |-> "rev", path |-> done]>> ELSE <<>>)
   \o (IF rest = <<>> THEN <<>> ELSE RevAll(Kid(d, Head(rest)), Append(done, Head(rest)), Tail(rest)))
 
+\* may a (sensor / any-typed) expression be put at a scalar of this type?
+SensorOK(r) == r.k = "raw" \/ (r.k = "scalar" /\ Class(r.dom) = "template")
+
+\* scalar siblings before child h of node d (type r) that may hold a template, set to an any-typed expression
+RECURSIVE AnyBefore(_, _, _, _, _)
+AnyBefore(r, d, done, h, i) ==
+  IF i >= h THEN <<>>
+  ELSE LET c == Kid(d, i)
+           ct == Resolve(KidT(r, d, i), c) IN
+       (IF c.k = "s" /\ ~IsNull(c) /\ SensorOK(ct)
+          THEN <<[op |-> "set", path |-> Append(done, i), v |-> AnyExpr, st |-> "auto"]>> ELSE <<>>)
+       \o AnyBefore(r, d, done, h, i + 1)
+ExprBefore(b, path) ==
+  IF path = <<>> THEN <<>>
+  ELSE LET up == Front(path)
+           d == NodeAt(Bases[b], up)
+           r == TypeAt(Root, Bases[b], up)
+           h == path[Len(path)]
+           applicable == d.k = "q" \/ r.k = "raw"
+                         \/ (r.k = "map" /\ r.open.k # "none" /\ ~IsFixedKey(r, d.p[h][1])) IN
+       IF applicable THEN AnyBefore(r, d, up, h, 1) ELSE <<>>
+
 CfgOps(b, path, cfg) ==
   CASE cfg = "max" -> <<>>
+    [] cfg = "exprbefore" -> ExprBefore(b, path)
     [] cfg = "revall" -> RevAll(Bases[b], <<>>, Front(path))
     [] cfg = "min" -> MinOps(Root, Bases[b], <<>>, path)
     [] cfg = "rev" -> LET m == NearestMap(Bases[b], path) IN
@@ -90,7 +121,6 @@ CfgOps(b, path, cfg) ==
 
 ----------------------------------------------------------------------------
 (* sensors: first template scalar below a node *)
-SensorOK(r) == r.k = "raw" \/ (r.k = "scalar" /\ Class(r.dom) = "template")
 RECURSIVE FirstTmpl(_, _, _), FirstOf(_, _, _, _)
 FirstTmpl(t, d, path) ==
   LET r == Resolve(t, d) IN
@@ -156,11 +186,11 @@ C13Common(r, mut, sens) ==
    mut |-> mut, sensors |-> sens]
 SOps(r, sens) == IF sens THEN SensorOpsFrom(r, Here, path, 1) ELSE <<>>
 
-InsertVector(r, where, at, sens) ==
+InsertVector(r, where, at, sens, fk) ==
   LET so == SOps(r, sens) IN
-  [prop |-> "C13", h |-> C13Common(r, "InsertKey", sens), where |-> where, key |-> ForeignKey, case |-> "same",
+  [prop |-> "C13", h |-> C13Common(r, "InsertKey", sens), where |-> where, key |-> fk, case |-> "same",
    refops |-> so,
-   ops |-> so \o <<[op |-> "ins", path |-> path, at |-> at, key |-> ForeignKey, case |-> "",
+   ops |-> so \o <<[op |-> "ins", path |-> path, at |-> at, key |-> fk, case |-> "",
                     val |-> [k |-> "s", v |-> "x", st |-> ""]]>>,
    exp |-> [at |-> r.keyErrAt, cls |-> IF r.keyErrAt = "item" THEN "schedule-item" ELSE "unknown-key",
             siblings |-> TRUE]]
@@ -200,6 +230,17 @@ DropInsVector(r, i, sens) ==
    exp |-> [at |-> r.miss, cls |-> IF r.keyErrAt = "item" THEN "schedule-item" ELSE "missing-key",
             siblings |-> FALSE]]
 
+\* two mandatory keys of the satisfied alternative dropped at once: both must be reported
+BreaksPair(r, k1, k2) == /\ k1 \in ReqKeys(r, Here) /\ k2 \in ReqKeys(r, Here)
+                         /\ ~\E a \in DOMAIN r.req : r.req[a] \subseteq (KeysOf(Here) \ {k1, k2})
+DropPairVector(r, i, j, sens) ==
+  LET so == SOps(r, sens) IN
+  [prop |-> "C13", h |-> C13Common(r, "DropKey", sens), where |-> "pair", key |-> Here.p[i][1], key2 |-> Here.p[j][1],
+   case |-> "same", refops |-> so,
+   ops |-> so \o <<[op |-> "del", path |-> Append(path, i)], [op |-> "del", path |-> Append(path, j)]>>,
+   exp |-> [at |-> r.miss, cls |-> IF r.keyErrAt = "item" THEN "schedule-item" ELSE "missing-key",
+            siblings |-> FALSE, named |-> <<Here.p[i][1], Here.p[j][1]>>]]
+
 EmitC13 ==
   /\ "C13" \in Props /\ tc = Nav
   /\ Here.k = "m" /\ HereT.k \in {"map", "raw"}
@@ -207,10 +248,10 @@ EmitC13 ==
          n == NKids(Here) IN
      \E sens \in SensorModes :
        \/ /\ Closed(r)
-          /\ \E w \in {"first", "middle", "last"} :
+          /\ \E w \in {"first", "middle", "last"}, fk \in ForeignKeys :
                /\ w = "middle" => n >= 2
                /\ tc' = ToJson(InsertVector(r, w, CASE w = "first" -> 1 [] w = "middle" -> (n \div 2) + 1
-                                                     [] w = "last" -> n + 1, sens))
+                                                     [] w = "last" -> n + 1, sens, fk))
        \/ \E i \in 1 .. n, case \in Cases, w \in {"after", "end"} :
                /\ w = "end" => i < n
                /\ case # "same" => ~(r.cs /\ ~Closed(r))     \* `on`: another spelling is another event, not a key error
@@ -221,6 +262,9 @@ EmitC13 ==
        \/ \E i \in 1 .. n :
                /\ Breaks(r, Here.p[i][1]) /\ Closed(r)
                /\ tc' = ToJson(DropInsVector(r, i, sens))
+       \/ \E i, j \in 1 .. n :
+               /\ i < j /\ BreaksPair(r, Here.p[i][1], Here.p[j][1])
+               /\ tc' = ToJson(DropPairVector(r, i, j, sens))
   /\ UNCHANGED <<b, path>>
 
 Next == Descend \/ EmitC03 \/ EmitC13
